@@ -108,9 +108,8 @@ def run(ctx):
     if not ctx.quick():
         graphs = [("MCForkView_quick.cfg", "forkview", True), ("MCForkView_quick.cfg", "forkview-deep", False),
                   ("MCForkView_tree.cfg", "forkview-deep", True), ("MCForkView_tree.cfg", "forkview", False),
-                  ("MCForkView_t1.cfg", "forkview", False), ("MCForkView_t1.cfg", "forkview-deep", False),
-                  ("MCForkView_t2.cfg", "forkview", False), ("MCForkView_t3.cfg", "forkview-deep", False),
-                  ("MCForkView_t3.cfg", "forkview", False), ("MCForkView_t4.cfg", "forkview", False),
+                  ("MCForkView_t1.cfg", "forkview", False), ("MCForkView_t2.cfg", "forkview", False),
+                  ("MCForkView_t3.cfg", "forkview-deep", False), ("MCForkView_t4.cfg", "forkview", False),
                   ("MCForkView_t5.cfg", "forkview-deep", False)]
     dots = {}
     replays = []   # (name, files, summary)
@@ -136,9 +135,9 @@ def run(ctx):
     # ---- seeded random histories on the real database (bigger universe than TLC enumerates)
     #           table  naddr maxlive steps maxwrites histories-per-shard shards via-account.Manager
     plans = [("wide", 8, 4, 60, 4, 450, 8, False), ("wide", 5, 3, 40, 3, 450, 8, False), ("wide", 8, 4, 40, 3, 350, 4, True)] if ctx.quick() else \
-            [("wide", 8, 4, 60, 4, 1200, 16, False), ("wide", 5, 3, 40, 3, 1200, 16, False), ("deep", 8, 7, 60, 4, 800, 16, False),
-             ("deep", 5, 2, 30, 3, 800, 16, False), ("wide", 8, 7, 80, 2, 400, 16, False),
-             ("wide", 8, 4, 40, 3, 800, 16, True), ("deep", 6, 6, 60, 4, 500, 16, True)]
+            [("wide", 8, 4, 60, 4, 600, 16, False), ("wide", 5, 3, 40, 3, 600, 16, False), ("deep", 8, 7, 60, 4, 400, 16, False),
+             ("deep", 5, 2, 30, 3, 400, 16, False), ("wide", 8, 7, 80, 2, 200, 16, False),
+             ("wide", 8, 4, 40, 3, 400, 16, True), ("deep", 6, 6, 60, 4, 250, 16, True)]
     jobs = [(pi, sh) for pi in range(len(plans)) for sh in range(plans[pi][6])]
 
     def drive(job):
